@@ -4,6 +4,7 @@ import (
 	"bytes"
 	"context"
 	"fmt"
+	"strconv"
 	"time"
 
 	"github.com/evstack/ev-node/types"
@@ -81,7 +82,7 @@ func (m *Manager) SyncLoop(ctx context.Context, errCh chan<- error) {
 				"txs", len(data.Txs),
 			)
 
-			if m.dataCache.IsSeen(dataHash) {
+			if m.dataCache.IsSeen(dataSeenKey(dataHash, dataHeight)) {
 				m.logger.Debug("data already seen", "data hash", dataHash)
 				continue
 			}
@@ -104,7 +105,7 @@ func (m *Manager) SyncLoop(ctx context.Context, errCh chan<- error) {
 				errCh <- fmt.Errorf("failed to sync next block: %w", err)
 				return
 			}
-			m.dataCache.SetSeen(dataHash)
+			m.dataCache.SetSeen(dataSeenKey(dataHash, dataHeight))
 		case <-metricsTicker.C:
 			// Update channel metrics periodically
 			m.updateChannelMetrics()
@@ -182,10 +183,17 @@ func (m *Manager) trySyncNextBlock(ctx context.Context, daHeight uint64) error {
 		m.headerCache.DeleteItem(currentHeight + 1)
 		m.dataCache.DeleteItem(currentHeight + 1)
 		if !bytes.Equal(h.DataHash, dataHashForEmptyTxs) {
-			m.dataCache.SetSeen(h.DataHash.String())
+			m.dataCache.SetSeen(dataSeenKey(h.DataHash.String(), hHeight))
 		}
 		m.headerCache.SetSeen(h.Hash().String())
 	}
+}
+
+// dataSeenKey identifies the data of one block in the seen-set. The data commitment covers the
+// transaction list only, so two blocks carrying the same transactions share it; without the
+// height the data of the later block would be dropped as already seen and sync would stall.
+func dataSeenKey(dataHash string, height uint64) string {
+	return dataHash + "/" + strconv.FormatUint(height, 10)
 }
 
 func (m *Manager) handleEmptyDataHash(ctx context.Context, header *types.Header) {
